@@ -407,20 +407,20 @@ def proof_part_extra(rep, pr):
     coverage that proof_part recorded (obligations, discharged, theorem names, Print Assumptions); returns
     True when that file re-checked.  A broken file sets rep.proof_broken like proof_part does."""
     cov = rep.coverage
-    cov["obligations"] = cov.get("obligations", 0) + len(pr["obligations"])
-    cov["discharged"] = cov.get("discharged", 0) + len(pr["discharged"])
-    cov["theorem_names"] = list(cov.get("theorem_names", [])) + list(pr["obligations"])
+    cov["obligations"] = cov.get("obligations", 0) + len(pr.get("obligations") or [])
+    cov["discharged"] = cov.get("discharged", 0) + len(pr.get("discharged") or [])
+    cov["theorem_names"] = list(cov.get("theorem_names", [])) + list(pr.get("obligations") or [])
     pa = dict(cov.get("print_assumptions", {}))
-    pa.update(pr["assumptions"])
+    pa.update(pr.get("assumptions") or {})
     cov["print_assumptions"] = pa
-    cov["checker_cmd"] = (cov.get("checker_cmd", "") + " ; " + pr["cmd"]).strip(" ;")
-    non_closed = {k: v for k, v in pr["assumptions"].items() if not v.startswith("Closed under")}
+    cov["checker_cmd"] = (cov.get("checker_cmd", "") + " ; " + (pr.get("cmd") or "")).strip(" ;")
+    non_closed = {k: v for k, v in (pr.get("assumptions") or {}).items() if not v.startswith("Closed under")}
     ax = dict(cov.get("axioms_used", {}))
     ax.update(non_closed)
     cov["axioms_used"] = ax
-    if not pr["ok"]:
-        rep.proof_broken = "proof obligation no longer checks: %s\n%s" % (pr["failed_dep"], pr["log"][-1500:])
-    return pr["ok"]
+    if not pr.get("ok"):
+        rep.proof_broken = pr.get("broken") or ("proof obligation no longer checks: %s\n%s" % (pr.get("failed_dep"), (pr.get("log") or "")[-1500:]))
+    return bool(pr.get("ok"))
 
 
 TRUSTED_BASE_COMMON = [
